@@ -644,6 +644,17 @@ def check_ins_store(mon, sampler, store, name, where):
         V(f"n-flows!=n-proposals-1:{key}", f"{flows.n_models} vs {n_prop}")
         return
     on_edge = np.any((x == 0.0) | (x == 1.0), axis=1)
+    # nessai clamps the logit to [eps, 1-eps]: a sample the flow generated
+    # beyond that (|x'| > ~18.4) lies in the region where the rescaling is no
+    # longer the logit map; the density "at that sample" is not defined by
+    # the property there (the flow's tails differ by tens of nats between
+    # the clamped and the generated point), so such rows are not compared
+    if rep == "logit" and ncfg.general.eps:
+        e2 = 2.0 * ncfg.general.eps
+        clamped = np.any((x <= e2) | (x >= 1.0 - e2), axis=1)
+        mon.count("ins.rows_in_logit_clamp_region", int(clamped.sum()))
+    else:
+        clamped = np.zeros(N, dtype=bool)
     for j in range(flows.n_models):
         with np.errstate(all="ignore"):
             ref = flows.log_prob_ith(xp, j) + log_j
@@ -654,6 +665,7 @@ def check_ins_store(mon, sampler, store, name, where):
             ok = both_ninf | (np.abs(got - ref) <= tol)
         # a sample exactly on the clamp boundary of the logit is singular
         ok |= ~np.isfinite(log_j)
+        ok |= clamped
         if not ok.all():
             i = int(np.argmax(~ok))
             kind = ""
